@@ -160,11 +160,14 @@ func (e *concEngine) runX(payload string) (string, string) {
 	}
 	switch f[0] {
 	case "wit":
-		if len(f) != 3 {
+		if len(f) < 2 || len(f) > 3 {
 			return "bad-case", "-"
 		}
 		w, ok := witnesses[f[1]]
-		n, err := strconv.Atoi(f[2])
+		n, err := 20000, error(nil)
+		if len(f) == 3 {
+			n, err = strconv.Atoi(f[2])
+		}
 		if !ok || err != nil {
 			return "bad-case", "-"
 		}
